@@ -88,15 +88,16 @@ def run_property(prop, tier, write=True):
         extra.update(mutants.replay(prop, mod))
     # known findings
     known = [k for k in load_known() if k.get("property") == prop and k.get("status") == "known"]
-    known_keys = {k["key"]: k for k in known}
+    from .report import norm_key
+    known_keys = {norm_key(k["key"]): k for k in known}
     viols = []
     seen = set()
     lines = []
     for o in total.violations:
         tag = (o.key, o.config)
-        if o.key in known_keys:
+        if norm_key(o.key) in known_keys:
             if o.key not in seen:
-                lines.append("KNOWN-FINDING: property=%s %s" % (prop, known_keys[o.key]["what"]))
+                lines.append("KNOWN-FINDING: property=%s %s" % (prop, known_keys[norm_key(o.key)]["what"]))
             seen.add(o.key)
             continue
         viols.append(o)
